@@ -154,7 +154,7 @@ static vf::Verdicts eval(const Inst &in, vf::Ctx &ctx) {
 
 int main(int argc, char **argv) {
   vf::Opts o = vf::parseOpts(argc, argv);
-  bool th = o.thorough();
+  bool th = o.thorough() && o.pass != "san";  // the secondary sanitizer pass of the thorough tier uses the quick alphabet
   vf::Check<Inst> c;
   c.property = "C15";
   c.level = "exploration";
